@@ -13,7 +13,8 @@ EXPLANATION = (
     "slicing) to its transport; LBL: Frame::recv_from stores the datagram source as frame.addr and DirectFrames::read does not overwrite "
     "it; SID: the id registered in a session map is the id the paired writer stamps / the callback removes / the lookup uses. "
     "Decides these shapes, not delivery across the network."
-    ' REFILL: the buffer handed to read() by the inline channel is a whole buffer of positive constant length; FRAG-ID: fragment ids come from a counter shared by all writers of a connection.')
+    ' REFILL: the buffer handed to read() by the inline channel is a whole buffer of positive constant length; FRAG-ID: fragment ids come from a counter shared by all writers of a connection.'
+    ' ERR also requires that no Ok(Some(frame)) is reachable from the Err edge of a receive result before the next receive; LBL includes the session-target label of listener-side sessions.')
 RULE_TEXT = "instances = frame locals, receive sites, writer impls, session maps"
 TRUSTED = ["kernel UDP demultiplexing between listener and connected session sockets", "mpsc channels deliver what is sent"]
 NOT_DECIDED = ["delivery as exactly one datagram across the network", "cross-session behaviour under concurrency", "kernel demultiplexing"]
